@@ -78,9 +78,9 @@ def released(v):
     return vget(v, "dec") + vget(v, "free_raw")
 
 
-def is_cow_clone(v):
+def is_cow_clone(v, via_routine=False):
     # the old block's owner is given up by running a handle's destructor (drops >= 1: an OffsetArc's destructor runs an Arc's), not by a bare decrement
-    return vget(v, "alloc") == 1 and vget(v, "init") == 1 and released(v) == 1 and vget(v, "drops") >= 1 and vget(v, "own") == 0 and vget(v, "uclone") >= 1 and vget(v, "inc") == 0
+    return vget(v, "alloc") == 1 and vget(v, "init") == 1 and released(v) == 1 and (vget(v, "drops") >= 1 or via_routine) and vget(v, "own") == 0 and vget(v, "uclone") >= 1 and vget(v, "inc") == 0
 
 
 def is_unwrapped(v):
@@ -126,10 +126,15 @@ def check_class(cls, vecs):
             if not (vget(v, "own") == 1 and z(v)):
                 return "taking a raw pointer back must produce one owner without touching the count; a path has %s" % balance.vec_str(v)
     elif cls == "COW":
+        # (the owner of the old block may also be given up by calling the release routine itself - `old.drop_inner()` on a
+        # parked handle - instead of letting the destructor run it: then the path set must show the routine whole, the last
+        # owner freeing included; a bare decrement has no such path)
+        routine = [v for v in vs if is_cow_clone(v, via_routine=True) and not is_cow_clone(v)]
+        whole = any(vget(v, "free_s1") == 1 for v in routine)
         for v in vs:
-            if not (is_zero(v) and vget(v, "uclone") == 0 or is_cow_clone(v)):
+            if not (is_zero(v) and vget(v, "uclone") == 0 or is_cow_clone(v) or (whole and is_cow_clone(v, via_routine=True))):
                 return "copy-on-write must either keep the allocation untouched without cloning, or clone once into one fresh block and release one owner of the old one through the handle's destructor; a path has %s" % balance.vec_str(v)
-        if not any(is_cow_clone(v) for v in vs) or not any(is_zero(v) for v in vs):
+        if not any(is_cow_clone(v) or (whole and is_cow_clone(v, via_routine=True)) for v in vs) or not any(is_zero(v) for v in vs):
             return "expected both the in-place path and the clone path"
     elif cls == "UNWRAP":
         for v in vs:
